@@ -945,6 +945,13 @@ class PathStorage(OutputBase):
         traj_dir = os.path.join(archive_path, "accepted")
         # Create the needed directories:
         make_dirs(traj_dir)
+        # A path number is used once. Files already there were left by an
+        # attempt that died before the restart file was updated; they would
+        # make a later removal of this directory (delete_old_all) fail.
+        sources = {os.path.abspath(i) for i in path.adress}
+        for entry in os.scandir(traj_dir):
+            if entry.is_file() and os.path.abspath(entry.path) not in sources:
+                os.remove(entry.path)
         # Write order, energy and traj files to the archive:
         _ = self.output_path_files(step, [path, "ACC"], archive_path)
         path = self._move_path(path, traj_dir, self.keep_traj_fnames)
